@@ -274,10 +274,32 @@ def blocked_in_read0(pid):
     except OSError:
         return False
     # x86_64: syscall 0 = read, first argument = fd
-    return len(parts) >= 2 and parts[0] == "0" and parts[1] in ("0x0", "0")
+    if not (len(parts) >= 2 and parts[0] == "0" and parts[1] in ("0x0", "0")):
+        return False
+    # ... and really asleep in it: a process that has been handed data but has not been scheduled since (a busy
+    # machine) is still "in read(0)", but runnable
+    try:
+        with open("/proc/%d/stat" % pid) as f:
+            st = f.read()
+        return st[st.rindex(")") + 2] == "S"
+    except (OSError, ValueError, IndexError):
+        return False
 
 
-def binary_prefix_outputs(args, lines, timeout=10.0):
+def pipe_unread(fd):
+    """bytes written to the pipe that the reader has not taken yet"""
+    import array
+    import fcntl
+    import termios
+    buf = array.array("i", [0])
+    try:
+        fcntl.ioctl(fd, termios.FIONREAD, buf)
+        return buf[0]
+    except OSError:
+        return 0
+
+
+def binary_prefix_outputs(args, lines, timeout=30.0):
     """Feed lines one at a time; after each, wait until the binary blocks in read(0), then collect
     what is available on its stdout. Returns list of cumulative outputs E_1..E_n and the final
     output after EOF."""
@@ -309,7 +331,7 @@ def binary_prefix_outputs(args, lines, timeout=10.0):
         while time.time() < t_end:
             if p.poll() is not None:
                 return False
-            if blocked_in_read0(p.pid):
+            if pipe_unread(p.stdin.fileno()) == 0 and blocked_in_read0(p.pid):
                 stable += 1
                 if stable >= 2:
                     return True
